@@ -172,7 +172,7 @@ func init() {
 			}
 		}})
 
-	register(&Rule{ID: "C04.R4", Props: []string{"C04", "C03"}, Min: 1, Needs: NeedMain,
+	register(&Rule{ID: "C04.R4", Props: []string{"C04", "C03", "C01"}, Min: 1, Needs: NeedMain,
 		Doc: "unreadHead steps back two bytes exactly for the tags for which WriteHead emits two bytes ([15,255]) and one byte otherwise",
 		Run: func(r *R) {
 			fn := r.w.Func(codecPkg, "Reader.unreadHead")
